@@ -8,6 +8,7 @@ Line protocol for C07 (one declared parameter struct + one batch per line):
         -> err:derive | decl=<S> typeerror | decl=<S> handler (<values>)
 
 <batch>  : P <n> (x<name hex> <0|1 nullable> <atype>)*n <cell>*n      an ordinary batch (schema + row 0)
+         | Z <n> (x<name hex> <0|1> <atype>)*n                         a batch with that schema and no rows
          | W -                                                        request-wrapped, bytes unreadable
          | W <batch>                                                  request-wrapped, first inner batch
 <atype>  : i8 … u64 f32 f64 bool utf8 lutf8 bin lbin fsb<w> date32 ts tsutc time64 dur dec dict
@@ -63,6 +64,11 @@ partial def parseBatch : List String → Option (PBatch × List String)
   | "W" :: "-" :: r => some (.wrapped none, r)
   | "W" :: r => match parseBatch r with
     | some (b, r) => some (.wrapped (some b), r)
+    | none => none
+  | "Z" :: n :: r => match n.toNat? with
+    | some k => match parseAFields k r with
+      | some (schema, r) => some (.empty schema, r)
+      | none => none
     | none => none
   | "P" :: n :: r => match n.toNat? with
     | some k => match parseAFields k r with
